@@ -285,6 +285,8 @@ def with_replay(m):
     if kind == 'step':
         out['replay'] = rl.record('step', {'regs': a['regs'], 'result': y}, {
             **pr, 'out_index': b, 'step_index': a['index'], 'rng': rl.state_json(a['rng']), 'program_rng': rl.state_json(a['program_rng'])})
+    elif kind == 'decomp_scenario':
+        out['replay'] = rl.record('decomp_scenario', {'m': a['m'], 'result': y}, {**pr, 'step': b, 'which': a['which'], 'params': a['params'], 'factor': a['factor']})
     elif kind == 'solve_scenario':
         out['replay'] = rl.record('solve_scenario', {'a': a['a'], 'b': a['b'], 'result': y}, {**pr, 'step': b})
     elif kind == 'twin_scenario':
@@ -411,6 +413,46 @@ def run(ctx):
                 ctx.nontrivial((sym, ferm, 'nested-scenario', str(sorted(x0.blocks))))
         except (ValueError, KeyError, IndexError) as e:
             raised['scenario:' + type(e).__name__] = raised.get('scenario:' + type(e).__name__, 0) + 1
+    # ---- decompositions of matrices of every kind (any total charge incl. odd, any directions, blocks stored in random order):
+    #      every factor is judged (the random programs reach a decomposition only now and then)
+    import symmray.linalg as la2
+    dstat = {}
+    for k in range(n_prog):
+        sym = SYMS[k % len(SYMS)]
+        ferm = (k // len(SYMS)) % 2 == 1 and sym != 'Z4'
+        try:
+            m = gen.rand_array(rng, sr, sym, ndim=2, fermionic=ferm, oddpos=rng.randint(1, 99), maxsize=3, keep=rng.choice([1.0, 0.7]))
+            if not m.blocks:
+                continue
+            m = m.copy()
+            for sct in list(m.blocks):
+                shp = np.shape(m.blocks[sct])
+                m.blocks[sct] = np.asarray(m.blocks[sct], dtype='float64') + 0.37 * np.arange(1, int(np.prod(shp)) + 1).reshape(shp) % 1.7
+            full = rl.describe_safe(m)
+            which = rng.choice(['qr', 'svd', 'svd_truncated', 'svd_truncated'])
+            params = {}
+            if which == 'qr':
+                params = {'stabilized': rng.random() < 0.5}
+                outs = list(la2.qr(m, **params))
+            elif which == 'svd':
+                u, s_, vh = la2.svd(m)
+                outs = [u, vh]
+            else:
+                params = {'cutoff': rng.choice([0.0, 1e-3, 0.3]), 'cutoff_mode': rng.randint(1, 6), 'max_bond': rng.choice([-1, 1, 2, 5]),
+                          'absorb': rng.choice([-1, 0, 1, None])}
+                u, s_, vh = la2.svd_truncated(m, **params)
+                outs = [u, vh]
+            dstat[which] = dstat.get(which, 0) + 1
+            for j, y in enumerate(outs):
+                ctx.count()
+                y = exactify(y)
+                exprs.append(valid_expr(y, sym, ferm))
+                meta.append({'op': '%s (factor %d)' % (which, j), 'symmetry': sym, 'fermionic': ferm, 'program': ['%s(m, %r)' % (which, params)],
+                             'result': describe(y), '_rp': ('decomp_scenario', {'m': full, 'which': which, 'params': params, 'factor': j}, which, y)})
+            ctx.nontrivial(('decomp', sym, ferm, which, str(m.charge), str(list(m.blocks))))
+        except (ValueError, KeyError, IndexError, np.linalg.LinAlgError) as e:
+            raised['decomp_scenario:' + type(e).__name__] = raised.get('decomp_scenario:' + type(e).__name__, 0) + 1
+    ctx.extra['decomposition_scenarios'] = dstat
     # ---- solve with a charged coefficient matrix (every symmetry, both directions of the column index): the solution is judged
     import symmray.linalg as la_
     for k in range(n_prog // 2):
@@ -698,7 +740,26 @@ def _rp_solve(sr, ins, pr, r):
     return _invalid(y, now, 'solve(a, b) with a charged coefficient matrix')
 
 
-ORACLES = {'step': _rp_step, 'nested_scenario': _rp_nested, 'twin_scenario': _rp_twin, 'solve_scenario': _rp_solve}
+def _rp_decomp(sr, ins, pr, r):
+    import symmray.linalg as la
+    m, which, params = ins['m'], pr['which'], pr['params']
+    try:
+        if which == 'qr':
+            outs = list(la.qr(m, **params))
+        elif which == 'svd':
+            u, s_, vh = la.svd(m); outs = [u, vh]
+        else:
+            u, s_, vh = la.svd_truncated(m, **params); outs = [u, vh]
+    except Exception as e:
+        print('  the decomposition raises now (%s: %s): no array is returned' % (type(e).__name__, e))
+        return []
+    y = exactify(outs[pr['factor']])
+    now, rec = coq_valid([y, ins['result']], pr['symmetry'], pr['fermionic'])
+    print('  Coq validity predicate on the factor returned now: %s; on the recorded factor: %s' % (now, rec))
+    return _invalid(y, now, '%s(m, %r) factor %d' % (which, params, pr['factor']))
+
+
+ORACLES = {'step': _rp_step, 'nested_scenario': _rp_nested, 'twin_scenario': _rp_twin, 'solve_scenario': _rp_solve, 'decomp_scenario': _rp_decomp}
 
 
 def replay(path):
